@@ -62,3 +62,13 @@ package input
 //@     invariant[dispatched_so_far] calls(a.dispatcher.Dispatch) == chunksFrom(iter(calls(a.dispatcher.Dispatch)), r.rsrc, r.rpos)
 //@   branch "<-a.delivery":
 //@     ensures[every_chunk_once_in_order; C12] exists src ref :: calls(a.dispatcher.Dispatch) == chunksFrom(old(calls(a.dispatcher.Dispatch)), src, rlCount(src))
+
+// ---------------------------------------------------------------- timeout_conn.go (C12): the deadline wrapper does not touch the data
+// Whatever the connection's Read delivers -- including bytes delivered together with EOF or a timeout -- is what the
+// handler's scanner gets: same count, same error, and the buffer is written by the connection only.
+//@ func (t TimeoutConn) Read(p []byte) (n int, err error)
+//@   property C12
+//@   requires t.Conn != nil
+//@   modifies p[..], t.Conn.lastN, t.Conn.lastErrTag, t.Conn.lastErrRef, t.Conn.reads
+//@   ensures[passes_through; C12] t.Conn.reads == old(t.Conn.reads) || (t.Conn.reads == old(t.Conn.reads) ++ argsOf(p) && n == t.Conn.lastN && err.tag == t.Conn.lastErrTag && err.ref == t.Conn.lastErrRef)
+//@   ensures[no_read_means_error; C12] t.Conn.reads == old(t.Conn.reads) ==> n == 0 && err != nil
